@@ -164,6 +164,18 @@ class Universe:
             out = out + lit(run)
         return out
 
+    def abstract_int(self, v: "V") -> "V":
+        """for a field the protocol reads as a big-endian INTEGER: a byte string that equals a known atom up to
+        leading zero bytes denotes that atom (the atom's own leading zero bytes are invisible symbolically)"""
+        if v.b in self.reg:
+            return v
+        core = v.b.lstrip(b"\x00")
+        if len(core) >= 8:
+            for kb, kt in self.reg.items():
+                if len(kb) >= len(core) and kb.lstrip(b"\x00") == core:
+                    return V(v.b, kt)
+        return v
+
     def abstract_items(self, raw: bytes, expected=None):
         """decode a (possibly mutated) TLV blob with the reference codec; None = not TLV8."""
         d = ref_decode(raw, expected)
